@@ -362,6 +362,7 @@ def make_env(opts=None):
         "m0": cls(rec, {"ka": 1, "kb": 2}),
         "g": g,
         "t": t,
+        "NS": NS,
     }
     return rec, env
 
